@@ -1,4 +1,5 @@
 """C38  The asset cache behaves as a bounded priority cache (DESIGN.md §5.C38)."""
+import hashlib
 import itertools
 import os
 import re
@@ -90,12 +91,22 @@ def random_op(rng, nm, ni, sizes, tss, capmax, coherent):
     return "cap %d" % rng.randrange(capmax + 1)
 
 
-def gen_histories(ctx):
+def gen_histories(ctx, exhaustive=True):
     """Returns list of (stream, coherent, [lines]) ; every history starts with `new CAP`."""
     rng = ctx.rng
     thorough = ctx.tier == "thorough"
     hs = []
     scopes = []
+    if exhaustive:
+        gen_exhaustive(ctx, hs, scopes)
+        ctx.extra["exhaustive_small_scope"] = scopes
+    gen_random(ctx, hs)
+    return hs
+
+
+def gen_exhaustive(ctx, hs, scopes):
+    rng = ctx.rng
+    thorough = ctx.tier == "thorough"
     # (a) exhaustive over the full alphabet
     full = alphabet((0, 1), (0, 1, 2), (1, 3, 5), (0, 1), (0, 4, 6))
     L = 3 if thorough else 2
@@ -125,7 +136,11 @@ def gen_histories(ctx):
         for h in itertools.product(sub, repeat=L2):
             hs.append(("exh-sub", coherent, ["new %d" % cap] + list(h)))
         scopes.append("all %d^%d histories over sub-alphabet %s, capacity %d" % (K, L2, sub, cap))
-    ctx.extra["exhaustive_small_scope"] = scopes
+
+
+def gen_random(ctx, hs):
+    rng = ctx.rng
+    thorough = ctx.tier == "thorough"
     # (c) seeded random long histories
     nrand = 1500 if thorough else 80
     hist = {}
@@ -154,7 +169,6 @@ def gen_histories(ctx):
                 o = "cap %d" % rng.choice((cap, cap // 2, HALF - 1, 0))
             lines.append(o)
         hs.append(("big", True, lines))
-    return hs
 
 
 def gen_wrap(ctx):
@@ -450,9 +464,18 @@ def lock_scan(ctx):
 
 
 # ------------------------------------------------------------------------------------------ run
-def keyf(line):
-    w = line.split()
-    return line if w and w[0] not in ("new",) else None
+def make_keyf():
+    """A case is an op together with the history it is applied to: key = hash chain of the history prefix."""
+    st = {"h": ""}
+
+    def keyf(line):
+        w = line.split()
+        if not w or w[0] == "new":
+            st["h"] = line
+            return None
+        st["h"] = hashlib.md5((st["h"] + "|" + line).encode()).hexdigest()
+        return st["h"]
+    return keyf
 
 
 def run_oracle(ctx, impl, hs, label, limit=5):
@@ -483,8 +506,8 @@ def run_oracle(ctx, impl, hs, label, limit=5):
 def run(ctx):
     ctx.rule = ("op histories (new/ins/pop/popn/has/del/rm/rst/clr/cap lines) replayed on the real mjCCache and on the Lean model; "
                 "exhaustive short histories over a small alphabet plus seeded random long histories; every line compares the complete "
-                "canonical state dump exactly; a case is distinct by its full op line position-independently; non-trivial = any op "
-                "other than `new`")
+                "canonical state dump exactly; a case is an op together with the whole history it is applied to (distinct by "
+                "the hash chain of the history prefix); non-trivial = any op other than `new`")
     ctx.lean_props(THEOREMS)
     lock_scan(ctx)
     drv = ctx.driver("drv_c38")
@@ -497,10 +520,10 @@ def run(ctx):
     ctx.extra["oracle_checked_ops"] = len(lines)
     ctx.extra["oracle_failing_histories"] = nfail
     ctx.differential("mjCCache state dumps vs Lean model (exhaustive + random + near-2^63 byte counts)", [drv], [impl], lines,
-                     keyf=keyf)
+                     keyf=make_keyf())
     wl = gen_wrap(ctx) + MALFORMED
     ctx.differential("size_t wrap-around byte counts and malformed ops (outside the proved precondition; model exactness only)",
-                     [drv], [impl], wl, keyf=keyf)
+                     [drv], [impl], wl, keyf=make_keyf())
     if len(outs) == len(lines):
         k = next((j for j, l in enumerate(lines) if l.startswith("cap") and "entries: " in outs[j]), 1)
         ctx.sample({"op": lines[k], "previous": outs[k - 1], "model_and_impl_output": outs[k]})
@@ -530,7 +553,7 @@ def run(ctx):
     def directed(c):
         sub = common.Ctx(c.pid, "thorough", c.seed + 977)
         sub.extra = {}
-        hs2 = [h for h in gen_histories(sub) if h[0] in ("random", "big")]
+        hs2 = gen_histories(sub, exhaustive=False)
         run_oracle(c, impl, hs2, "directed search")
         if c.oracle_failures:
             f = c.oracle_failures[0]
